@@ -155,6 +155,11 @@ def run_property(pid, tier, seed):
         samples.append({"obligation": o.name, "kind": o.kind, "clause": o.clause, "line": o.line, "result": o.result,
                         "backend": o.backend, "seconds": round(o.time or 0, 3),
                         "smt2_bytes": len(o.smt2()) if o.assumptions or not z3.is_true(o.goal) else 0})
+    for b in bounded:
+        for smp in b.get("samples", [])[:2]:
+            samples.append({"bounded_check": b.get("name"), "case": smp})
+    if not samples:
+        samples.append({"note": "no case recorded"})
     functions = []
     for rep in fn_reports:
         functions.append({"function": rep.key, "source_sha256_16": rep.sha, "status":
